@@ -259,4 +259,34 @@ for scen in (scenario_coro, scenario_thread, scenario_slice, scenario_custom, sc
                 leg.violation(f"{scen.__name__}:{l1}@{k1}+{l2}@{k2}", msg)
     finally:
         cleanup()
+# hostile entries in sys.modules: the glue scan looks at every module; whatever an entry does when looked at, extract returns a Stack
+import importlib.util, importlib.machinery
+class RaisingDict:
+    @property
+    def __dict__(self): raise RuntimeError("no __dict__ for you")
+class RaisingGetattr:
+    def __getattr__(self, n): raise OSError("lazy import failed: " + n)
+def lazy_broken():
+    spec = importlib.machinery.ModuleSpec("zz_lazy_broken", None)
+    class L(importlib.abc.Loader):
+        def create_module(s, spec): return None
+        def exec_module(s, module): raise ImportError("deferred import fails")
+    spec.loader = importlib.util.LazyLoader(L())
+    return importlib.util.module_from_spec(spec)
+import importlib.abc
+for name, make in (("zz_raising_dict", RaisingDict), ("zz_raising_getattr", RaisingGetattr), ("zz_lazy_broken", lazy_broken), ("zz_none", lambda: None)):
+    leg.case(("hostile-module", name), True)
+    try:
+        sys.modules[name] = make()
+        import warnings as _w
+        with _w.catch_warnings():
+            _w.simplefilter("ignore")
+            g_ = (lambda: (yield))(); next(g_)
+            st = stackscope.extract(g_)
+        if not isinstance(st, stackscope.Stack) or not st.frames:
+            leg.violation(("hostile-module", name), f"extract with a hostile sys.modules entry returned {st!r}")
+    except BaseException as e:
+        leg.violation(("hostile-module", name), f"extract raised {e!r} because of a sys.modules entry that cannot be inspected")
+    finally:
+        sys.modules.pop(name, None)
 leg.finish()
